@@ -40,6 +40,14 @@ func c11Gen(seed uint64, idx, total int, tier string) any {
 			} else {
 				ops = append(ops, "offer")
 			}
+			if nt == 1 && r.Bool(0.4) {
+				// (sequential histories only: C11 quantifies over concurrent Create* calls, and two
+				// overlapping SetLocalDescription calls are another matter, see DESIGN.md 11.5)
+				ops = append(ops, "setlocal") // apply the most recent description that fits the state
+			}
+		}
+		if nt == 1 && r.Bool(0.5) {
+			ops = append(ops, "offer", "offer")
 		}
 		c.Tasks = append(c.Tasks, ops)
 	}
@@ -64,6 +72,7 @@ func c11Run(t *testing.T, cj []byte, res *vfResult) {
 	seq := 0
 	tick := func() int { mu.Lock(); defer mu.Unlock(); seq++; return seq }
 	var calls []*c11Call
+	var created []SessionDescription
 	var trace []simrt.Step
 	outcome := ""
 	var unfinished []string
@@ -117,6 +126,24 @@ func c11Run(t *testing.T, cj []byte, res *vfResult) {
 			ti, ops := ti, ops
 			s.Go(fmt.Sprintf("t%d", ti), func() {
 				for _, k := range ops {
+					if k == "setlocal" {
+						want := SDPTypeOffer
+						if pc.SignalingState() == SignalingStateHaveRemoteOffer {
+							want = SDPTypeAnswer
+						}
+						mu.Lock()
+						var d *SessionDescription
+						for i := len(created) - 1; i >= 0 && d == nil; i-- {
+							if created[i].Type == want {
+								d = &created[i]
+							}
+						}
+						mu.Unlock()
+						if d != nil {
+							_ = pc.SetLocalDescription(*d)
+						}
+						continue
+					}
 					cl := &c11Call{task: ti, kind: k, call: tick()}
 					var d SessionDescription
 					var err error
@@ -133,6 +160,9 @@ func c11Run(t *testing.T, cj []byte, res *vfResult) {
 						cl.sessID, cl.ver = pd.SessID, pd.SessVer
 					}
 					mu.Lock()
+					if err == nil {
+						created = append(created, d)
+					}
 					calls = append(calls, cl)
 					mu.Unlock()
 				}
